@@ -90,6 +90,11 @@ type verifOutput struct {
 var currentWorld *world
 
 func (cfg *verifOutput) NewForwarder(parentLogger logger.Logger, args base.ChunkConsumerArgs, metricCreator promreg.MetricCreator) base.ChunkConsumer {
+	// the output pair is recognised by its upstream address (the second pair of a two-output configuration uses port 24225)
+	currentWorld.nextOut = "out1"
+	if strings.HasSuffix(cfg.Upstream.Address, ":24225") {
+		currentWorld.nextOut = "out2"
+	}
 	return currentWorld.newConsumerWith(parentLogger, cfg, args, metricCreator)
 }
 
@@ -123,6 +128,7 @@ type params struct {
 	delayB      bool
 	singleton     bool          // orchestration type singleton (one pipeline for everything) instead of byKeySet
 	twoPairs      bool          // two output/buffer pairs from the start (out1 under q, out2 under q2)
+	oldDownOut2   bool          // with oldDown: only the upstream of the SECOND output is down before the reload (queues exist under out2 only)
 	secondHUP     string        // a second SIGHUP with this configuration variant after the first reload has completed
 	sessionMaxAge  time.Duration // maximum session age of the output client (default 30 min): small values make soft reconnects happen
 	pingInterval   time.Duration // defs.ForwarderPingInterval (default 20 s)
@@ -267,8 +273,10 @@ func (w *world) newConsumerWith(parentLogger logger.Logger, decoder base.ChunkDe
 	if w.p.reload != "" {
 		if w.reloaded {
 			opt = fakeup.Options{} // pipelines created by the reload talk to a healthy upstream
-		} else if w.p.oldDown {
+		} else if w.p.oldDown && !(w.p.oldDownOut2 && w.nextOut != "out2") {
 			opt = fakeup.Options{AlwaysRefuse: true}
+		} else if w.p.oldDown {
+			opt = fakeup.Options{}
 		}
 	}
 	opt.Name = fmt.Sprintf("up%d.", idx)
@@ -475,6 +483,7 @@ func makeRun(p params) explore.RunFunc {
 			if p.chunkBytes > 0 {
 				second = strings.Replace(second, "hiddenFields: [source]", "hiddenFields: []", 1)
 			}
+			second = strings.Replace(second, "address: localhost:24224", "address: localhost:24225", 1)
 			cfgText += second
 		}
 		if p.reload != "" {
@@ -898,7 +907,26 @@ func driveReload(w *world) explore.Verdict {
 	orc.Shutdown()
 	acked := w.ackedStamps()
 	disk, _ := w.diskStamps()
+	var acked2, disk2 map[string]bool
+	if p.twoPairs {
+		acked = w.ackedStampsOf("out1")
+		acked2 = w.ackedStampsOf("out2")
+		disk2, _ = w.diskStampsIn("q2")
+	}
 	vsched.Idle()
+	if p.twoPairs {
+		// every record is owed to the second output as well
+		for _, l := range w.lines {
+			if !l.accepted || acked2[l.stamp] {
+				continue
+			}
+			if disk2[l.stamp] {
+				w.violate("reload:not-delivered:second-output", "record %s is still only in the on-disk queue of output out2 after the reload and a drain against a healthy upstream: that queue was not taken over / served", l.stamp)
+			} else {
+				w.violate("reload:record-lost:second-output", "record %s is neither acknowledged by the upstream of output out2 nor in its queue", l.stamp)
+			}
+		}
+	}
 	// ---- oracle (acknowledged / on disk as of the moment Shutdown returned)
 	nAck, nDisk := 0, 0
 	for _, l := range w.lines {
@@ -1530,6 +1558,10 @@ func scenarios(prop string) []*explore.Scenario {
 		// two output/buffer pairs: the queues of BOTH outputs are taken over
 		tp := params{name: "reload-takeover-two-outputs/identical", conns: [][]op{{L("appA"), L("appB")}}, gens: 1, chunkRecs: 1, memCap: 2, opt: fakeup.Options{}, reload: "identical", oldDown: true, twoPairs: true, advances: 0}
 		add(tp, 1, 2)
+		t2 := tp
+		t2.name = "reload-takeover-second-output-only/identical"
+		t2.oldDownOut2 = true
+		add(t2, 1, 2)
 		// key values that need escaping in the pipeline ID / queue directory name
 		ek := params{name: "reload-takeover-escaped-keys/identical", conns: [][]op{{L("app%A,x"), L("app,%2C")}}, gens: 1, chunkRecs: 1, memCap: 2, opt: fakeup.Options{}, reload: "identical", oldDown: true, advances: 0}
 		add(ek, 1, 2)
